@@ -7,7 +7,7 @@ from props import pipefmt, pipecheck, gen_programs
 PID = "C18"
 MANIFEST_ENTRY = {
  "level_claimed": {"category": "proof", "text": "Theorems in coq/Properties/C18.v over the transliterated parser (whose input is the list of token TYPES, so no token text can matter). UNBOUNDED (induction over the main loop, every token list, whole alphabet, no side condition on where in the program the rewrite happens): the parser state modulo token indices is preserved by every step (C18_step_ignores_token_indices); whitespace, blank-line separators, annotations and comment lines at either end of the program are ignored (C18_trim_ends); between the same tokens or at either end, any two non-empty runs of whitespace / annotation / comment-line tokens that both contain a whitespace token (or both contain none) give the same acceptance and the same tree (C18_trivia_runs_full) -- so an annotation or comment line next to whitespace is invisible (C18_annotation_next_to_whitespace_full) and any number of adjacent whitespace tokens behaves as one (C18_whitespace_repetition_full); an annotation or comment line inserted anywhere in an ACCEPTED program, with or without whitespace in that gap, leaves it accepted with the same tree (C18_annotation_insert_full; one direction only, the converse is false in the model and in the parser: `5 [](1)` is rejected, `5 []@a(1)` accepted). These rest on a parser-state invariant proved for every step (C18_settled_always). Two parser defects found by these proofs were repaired (annotations at either end shielded a blank-line separator from trimming; whitespace after two adjacent side-effect blocks became the list operator) and are kept as regression Examples. STILL BOUNDED (vm_compute enumeration, at most three non-trivia tokens over the representative alphabet; C18_full_statement stated, not proved): any two accepted whitespace spellings (adding / removing whitespace where both are accepted) give the same tree, equal ACCEPTANCE for an annotation in a gap without whitespace, and parentheses around a complete operand add only group nodes -- outside known finding C18-K1 (a parenthesised operand or prefix operator right after a side-effect block that has no operand before it is rejected as malformed; witness Example C18_K1_parens_after_operandless_block_refuted, classifier block_then_group). The parser model is tied to parser.rs by the regenerated tables and node-for-node comparison. At source level the check applies every rewrite of the property (widen / remove whitespace where the token sequence is unchanged, trailing whitespace before a line break, annotations, comment lines, a comment or annotation next to a blank line at the very start / end, parentheses around an operand, an inert side-effect block) at every applicable position of generated programs (including runs of adjacent side-effect blocks followed by whitespace) and compares the real parse trees modulo trivia and groups and the real final values on both data implementations. UNBOUNDED on the operator fragment through the C02 reference parser (C18_parse_tree_is_reference_image, C18_same_items_same_tree_operator_expressions, C18_whitespace_where_allowed_operator_expressions, C18_parens_operator_expressions): where the reference is defined the parse tree is its image under a map ignoring token indices, so a whitespace token may be added or removed in any gap that is not between the end of a value and the start of one, and round brackets around a whole operator expression of any length without the separator `;` (hypothesis no_separators; inside round brackets `;` is whitespace by design), around any value token inside one (C18_parens_around_value_operator_expressions; except an identifier directly after `.`, where `a.b` and `a.(b)` differ by design) or around an already bracketed sub-expression without `;` (C18_parens_around_group_operator_expressions) change the tree only by group nodes.", "design_ref": "DESIGN.md section 8 C18"},
- "level_note": "Trusted: Coq kernel (vm_compute), translator, harness binaries pipeline and exec. The result-invariance part (side-effect blocks, final values) is checked on the implementation only (metamorphic), not proved. No axioms.",
+ "level_note": "Trusted: Coq kernel (vm_compute), translator, harness binaries pipeline and exec. Result half for parentheses, proved (unbounded): on the tree compiler that is proved equal to the builder model a Group node emits nothing - C18_group_nodes_emit_nothing: inserting a Group above any sub-tree that is not a list its parent flattens and not a conditional / else link under a conditional parent leaves entry, instruction list (with operands) and jump table unchanged; each excluded case is shown necessary by a computed counterexample (C18_group_side_condition_*_necessary); C18_group_nodes_emit_nothing_renamed extends it to any number of such groups plus node renaming. End to end: C18_parens_whole_same_code_partial (round brackets around a whole operator expression of any length: both spellings are accepted and, whenever the builder model succeeds on both, instruction streams, jump tables and entry are equal with every data operand made from the same source token, so every machine run is identical); C18_parens_same_code_from_reference_trees gives the same for any two token lists whose reference trees differ only by brackets around value tokens or groups. Whitespace / annotation rewrites give identical trees, so their result invariance is immediate. Partial: brackets around a single value token / an existing group are reduced to computing their reference trees exactly (C18_parens_same_code_full_statement stays a Definition for clauses (b), (c)); build success is a hypothesis on both sides; metadata is not compared; the result-invariance of adding / removing an inert side-effect block is checked on the implementation only (metamorphic). No axioms.",
  "technique": "Coq proof (simulation modulo token indices and a parser-state invariant over the parser model, unbounded, for whitespace / annotation / comment-line rewrites; vm_compute bounded enumeration for the other clauses) + metamorphic differential testing of the implementation"}
 TRUSTED = vplib.BASE_TRUSTED + ["harness/src/bin/exec.rs (final values read back through the GarnishData getters)"]
 
